@@ -468,14 +468,6 @@ package main
 //@   ensures kept: live(result.E0) && samebuf(result.E0, ps0) && result.E0.tkz.current.begin > ps0.tkz.current.begin && result.E0.scope == ps0.scope && sameoff(result.E0.offsideCol, ps0.offsideCol)
 //@   at after call parseRawLet#0: L = glob(vardefs)
 
-//@ func parseTypeDef
-//@   trusted
-//@   modifies maps glob:vardefs glob:typeregs glob:tvaresets
-//@   panics may
-//@   ensures kept: live(ps) ==> live(result.E0) && samebuf(result.E0, ps) && result.E0.tkz.current.begin > ps.tkz.current.begin
-//@ func psForErrMsg
-//@   trusted
-//@   panics never
 
 //@ func parseRootOneStmt
 //@   props C07
@@ -1844,6 +1836,7 @@ package main
 //@   decreases rem(ps)
 //@   ensures grammar: Rfields(ps, result.E0, result.E1)
 //@   ensures ends-at-brace: result.E0.tkz.current.ttype == New_TokenType_RBRACE
+//@   ensures progress: result.E0.tkz.current.begin > ps.tkz.current.begin
 //@   ensures live: live(result.E0) && samebuf(result.E0, ps)
 //@   ensures frame: result.E0.scope == ps.scope && sameoff(result.E0.offsideCol, ps.offsideCol)
 
@@ -1923,6 +1916,7 @@ package main
 //@   props C03
 //@   modifies maps glob:typeregs glob:vardefs
 //@   panics may
+//@   ensures a-record-or-a-union: is(DefStmt_DRecordDef, df) || is(DefStmt_DUnionDef, df)
 //@   ensures record: is(DefStmt_DRecordDef, df) ==> glob(typeregs) == reg_rec(old(glob(typeregs)), sc, DefStmt_DRecordDef_Value(df).Name) && glob(vardefs) == old(glob(vardefs))
 //@   ensures union: is(DefStmt_DUnionDef, df) ==> glob(typeregs) == reg_type(old(glob(typeregs)), sc, DefStmt_DUnionDef_Value(df).Name) && glob(vardefs) == ctor_log(old(glob(vardefs)), sc, DefStmt_DUnionDef_Value(df), len(DefStmt_DUnionDef_Value(df).Cases))
 
@@ -2589,6 +2583,7 @@ package main
 //@   ensures definition: result.E1.Name == tname && result.E1.Tparams == pnames && (exists pe ParseState :: {Rfields(PF, pe, result.E1.Fields)} Rfields(PF, pe, result.E1.Fields) && pe.tkz.current.ttype == New_TokenType_RBRACE)
 //@   ensures fields-in-a-child-scope: scparent(PF.scope) == ps0.scope && PF.scope != ps0.scope
 //@   ensures registered-in-the-scope-given: glob(typeregs) == reg_rec(L, ps0.scope, tname)
+//@   ensures kept: live(result.E0) && samebuf(result.E0, ps0) && result.E0.tkz.current.begin > ps0.tkz.current.begin
 //@   ensures scope-restored: result.E0.scope == ps0.scope
 //@   at after call psRegTypeVars#0: L = glob(typeregs)
 //@   at after call psConsume#0: PF = ret
@@ -2609,6 +2604,7 @@ package main
 //@   panics may
 //@   decreases rem(ps)
 //@   ensures grammar: Rcases(ps, result.E0, result.E1)
+//@   ensures progress: result.E0.tkz.current.begin > ps.tkz.current.begin
 //@   ensures live: live(result.E0) && samebuf(result.E0, ps)
 //@   ensures frame: result.E0.scope == ps.scope && sameoff(result.E0.offsideCol, ps.offsideCol)
 
@@ -2630,6 +2626,7 @@ package main
 //@   ensures cases-in-a-child-scope: scparent(PC.scope) == ps0.scope && PC.scope != ps0.scope
 //@   ensures type-registered-in-the-scope-given: glob(typeregs) == reg_type(L, ps0.scope, tname)
 //@   ensures constructors-registered-in-the-scope-given: glob(vardefs) == ctor_log(old(glob(vardefs)), ps0.scope, result.E1, len(result.E1.Cases))
+//@   ensures kept: live(result.E0) && samebuf(result.E0, ps0) && result.E0.tkz.current.begin > ps0.tkz.current.begin
 //@   ensures scope-restored: result.E0.scope == ps0.scope
 //@   at after call psRegTypeVars#0: L = glob(typeregs)
 //@   at before call parseCaseDefs#0: PC = $0
@@ -2658,3 +2655,63 @@ package main
 //@   inline-call slice.Map#0
 //@   loop slice.Map#0/0 index i:
 //@     invariant generated-so-far: calls(tvgen) == old(calls(tvgen)) + i && len(res) == i
+
+// ---------------------------------------------------------------------------------------------
+// C03 / C16, type definition groups: `type A = .. and B = ..`.  Each member is a record or a union
+// definition parsed in the scope of the group; after the group, every member (with its forward references
+// resolved) is registered in the enclosing scope, in order; the group is parsed between psEnterTypeDef and
+// psLeaveTypeDef and in a child scope that is popped again.
+// ---------------------------------------------------------------------------------------------
+
+//@ func parseTypeDefBody
+//@   props C03 C16
+//@   modifies maps glob:typeregs glob:vardefs
+//@   requires live: live(ps)
+//@   panics may
+//@   ensures a-record-or-a-union-by-its-first-token: (is(DefStmt_DRecordDef, result.E1) ==> DefStmt_DRecordDef_Value(result.E1).Name == ps.tkz.current.stringVal) && (is(DefStmt_DUnionDef, result.E1) ==> DefStmt_DUnionDef_Value(result.E1).Name == ps.tkz.current.stringVal)
+//@   ensures kept: live(result.E0) && samebuf(result.E0, ps) && result.E0.scope == ps.scope
+//@   ensures progress: result.E0.tkz.current.begin > ps.tkz.current.begin
+
+//@ func parseTypeDefBodyList
+//@   props C03 C16
+//@   modifies maps glob:typeregs glob:vardefs
+//@   requires live: live(ps)
+//@   panics may
+//@   decreases rem(ps)
+//@   ensures at-least-one: len(result.E1) >= 1
+//@   ensures kept: live(result.E0) && samebuf(result.E0, ps) && result.E0.scope == ps.scope
+//@   ensures progress: result.E0.tkz.current.begin > ps.tkz.current.begin
+
+//@ func resolveFwrdDecl
+//@   trusted
+//@   modifies maps
+//@   panics may
+//@   ensures same-members: len(result.Defs) == len(md.Defs)
+//@   note abstract: replaces forward-declaration placeholders in every member (transTVDefStmt over transTRecurse)
+
+//@ func psRegMdTypes
+//@   props C03
+//@   modifies maps glob:typeregs glob:vardefs
+//@   panics may
+//@   ensures every-member-registered-in-order: glob(typeregs) == md_tlog(old(glob(typeregs)), ps.scope, md.Defs, len(md.Defs)) && glob(vardefs) == md_vlog(old(glob(vardefs)), ps.scope, md.Defs, len(md.Defs))
+//@   inline-call slice.Iter#0
+//@   loop slice.Iter#0/0 index i:
+//@     invariant index: 0 <= i && i <= len(md.Defs)
+//@     invariant logs: glob(typeregs) == md_tlog(old(glob(typeregs)), ps.scope, md.Defs, i) && glob(vardefs) == md_vlog(old(glob(vardefs)), ps.scope, md.Defs, i)
+
+//@ func parseTypeDef
+//@   props C03 C07 C16
+//@   modifies maps glob:vardefs glob:typeregs glob:tvaresets
+//@   ghost MD MultipleDefs       -- the group with its forward references resolved
+//@   ghost LT int                -- the type log before the final registration
+//@   ghost LV int                -- the definition log before the final registration
+//@   requires live: live(ps)
+//@   panics may
+//@   ensures a-definition-group: is(RootStmt_RSMultipleDefs, result.E1) && len(RootStmt_RSMultipleDefs_Value(result.E1).Defs) >= 1 && ps.tkz.current.ttype == New_TokenType_TYPE
+//@   ensures every-member-registered-in-the-enclosing-scope-in-order: RootStmt_RSMultipleDefs_Value(result.E1) == MD && glob(typeregs) == md_tlog(LT, ps.scope, MD.Defs, len(MD.Defs)) && glob(vardefs) == md_vlog(LV, ps.scope, MD.Defs, len(MD.Defs))
+//@   ensures scope-restored: result.E0.scope == ps.scope
+//@   ensures left-the-definition-context: !result.E0.tdctx.insideTD
+//@   ensures kept: live(ps) ==> live(result.E0) && samebuf(result.E0, ps) && result.E0.tkz.current.begin > ps.tkz.current.begin
+//@   at before call psRegMdTypes#0: MD = $0
+//@   at before call psRegMdTypes#0: LT = glob(typeregs)
+//@   at before call psRegMdTypes#0: LV = glob(vardefs)
